@@ -200,7 +200,8 @@ Section Sys.
                         c_flow : bool (* the transport honours pause_reading *) }.
   (* protocol + HttpParser *)
   Record prot := mkProt { connected : bool; tpaused : bool; rpaused : bool; parser_alive : bool;
-                          pp_present : bool; has_more : bool }.
+                          pp_present : bool; has_more : bool;
+                          closing : bool (* transport.close() was called: connection_lost runs when the loop is idle *) }.
   (* HttpPayloadParser *)
   Record pp := mkPp { ptyp : ptype; plength : N; ppaused : bool; cst : cstate; csize : N; ctail : bytes;
                       more : bool; eof_pending : bool; pdone : bool; ntrailers : N; bad_trailer : bool }.
@@ -239,7 +240,7 @@ Section Sys.
      _paused = True); transport.pause_reading() when there is a transport *)
   Definition pause_reading (s : st) : st :=
     let p := pr s in
-    let s1 := set_pr s (mkProt (connected p) (if connected p then true else tpaused p) true (parser_alive p) (pp_present p) (has_more p)) in
+    let s1 := set_pr s (mkProt (connected p) (if connected p then true else tpaused p) true (parser_alive p) (pp_present p) (has_more p) (closing p)) in
     upd_pa s1 (fun q => pa_paused q true).
 
   (* ---- StreamReader, producer side ------------------------------------------------------------ *)
@@ -248,21 +249,22 @@ Section Sys.
     | WWaiting => mkRd (buf r) (rsize r) (low r) (high r) (lowc r) (highc r) (reof r) (rexn r) (total r) (cursor r) (splits r) WOk (delivered r)
     | _ => r end.
 
-  (* StreamReader.feed_data *)
-  Definition rd_feed (s : st) (data : bytes) : st :=
-    if isnil data then s else
+  (* StreamReader.feed_data; None = `assert not self._eof` fails (AssertionError) *)
+  Definition rd_feed (s : st) (data : bytes) : option st :=
+    if reof (re s) then None else
+    if isnil data then Some s else
     let r := re s in
     let r1 := wake_ok (mkRd (buf r ++ [data]) (rsize r + lenN data) (low r) (high r) (lowc r) (highc r) (reof r) (rexn r)
                             (total r + lenN data) (cursor r) (splits r) (wt r) (delivered r)) in
     let s1 := set_re s r1 in
-    if dg_feed_pause (rsize r1) (high r1) then pause_reading s1 else s1.
+    Some (if dg_feed_pause (rsize r1) (high r1) then pause_reading s1 else s1).
 
   (* StreamReader.feed_eof: _eof = True; wake; protocol.resume_reading(resume_parser=False) *)
   Definition rd_feed_eof (s : st) : st :=
     let r := re s in
     let r1 := wake_ok (mkRd (buf r) (rsize r) (low r) (high r) (lowc r) (highc r) true (rexn r) (total r) (cursor r) (splits r) (wt r) (delivered r)) in
     let p := pr s in
-    set_pr (set_re s r1) (mkProt (connected p) (if connected p then false else tpaused p) false (parser_alive p) (pp_present p) (has_more p)).
+    set_pr (set_re s r1) (mkProt (connected p) (if connected p then false else tpaused p) false (parser_alive p) (pp_present p) (has_more p) (closing p)).
 
   (* StreamReader.set_exception (through helpers.set_exception) *)
   Definition rd_set_exn (s : st) (e : ekind) : st :=
@@ -300,7 +302,7 @@ Section Sys.
   Definition db_feed (s : st) (chunk : bytes) : st * fres :=
     let s := set_fed s (fed s ++ chunk) in
     let d := de s in
-    if negb (comp d) then (rd_feed s chunk, FMore false) else
+    if negb (comp d) then match rd_feed s chunk with Some s1 => (s1, FMore false) | None => (s, FErr EAssertion) end else
     let h1 := if negb (d_started d) && negb (isnil chunk) && (d_enc d =? 2) && dg_sniff_raw (hd 0 chunk) then hnew 0 else d_h d in
     let started1 := d_started d || negb (isnil chunk) in
     let maxlen := dg_max_length (c_limit (cf s)) (low (re s)) in
@@ -309,7 +311,9 @@ Section Sys.
     | Some None => (s, FErr EFuel)
     | Some (Some (h2, out)) =>
       let s1 := set_de s (mkDb true (d_enc d) h2 (d_size d + lenN chunk) started1) in
-      (rd_feed s1 out, FMore (havail h2))
+      (* `if chunk: self.out.feed_data(chunk)` *)
+      if isnil out then (s1, FMore (havail h2)) else
+      match rd_feed s1 out with Some s2 => (s2, FMore (havail h2)) | None => (s1, FErr EAssertion) end
     end.
 
   (* payload.feed_eof() *)
@@ -541,10 +545,10 @@ Section Sys.
       if parser_alive (pr s) && pp_present (pr s) then
         match payload_feed_eof fuel s with
         | (s1, Some e) => rd_set_exn s1 e      (* set_exception(self._payload, ClientPayloadError(...)) *)
-        | (s1, None) => if pdone (pa s1) then pr_set s1 (fun p => mkProt (connected p) (tpaused p) (rpaused p) (parser_alive p) false (has_more p)) else s1
+        | (s1, None) => if pdone (pa s1) then pr_set s1 (fun p => mkProt (connected p) (tpaused p) (rpaused p) (parser_alive p) false (has_more p) (closing p)) else s1
         end
       else s in
-    pr_set s1 (fun p => mkProt false (tpaused p) false false (pp_present p) (has_more p)).
+    pr_set s1 (fun p => mkProt false (tpaused p) false false (pp_present p) (has_more p) false).
 
   Definition parser_feed (fuel : nat) (s : st) (data : bytes) : st :=
     if negb (parser_alive (pr s)) then s else                 (* data_received: `self._parser is None` *)
@@ -554,21 +558,21 @@ Section Sys.
     | (s1, PRaise e) =>
       let s2 := rd_set_exn s1 e in
       if is_framing e then
-        (* re-raised: data_received closes the transport; connection_lost follows and, the payload
-           being chunked, replaces the payload's exception by "not enough data" (TransferEncodingError) *)
-        connection_lost fuel s2
-      else pr_set s2 (fun p => mkProt (connected p) (tpaused p) (rpaused p) (parser_alive p) false false)
-    | (s1, PPending) => pr_set s1 (fun p => mkProt (connected p) (tpaused p) (rpaused p) (parser_alive p) (pp_present p) true)
-    | (s1, PNeeds) => pr_set s1 (fun p => mkProt (connected p) (tpaused p) (rpaused p) (parser_alive p) (pp_present p) false)
-    | (s1, PComplete _) => pr_set s1 (fun p => mkProt (connected p) (tpaused p) (rpaused p) (parser_alive p) false false)
+        (* re-raised: data_received calls transport.close(); connection_lost follows when the loop is
+           idle and, the payload being chunked, replaces the payload's exception by "not enough data" *)
+        pr_set s2 (fun p => mkProt (connected p) (tpaused p) (rpaused p) (parser_alive p) (pp_present p) (has_more p) true)
+      else pr_set s2 (fun p => mkProt (connected p) (tpaused p) (rpaused p) (parser_alive p) false false (closing p))
+    | (s1, PPending) => pr_set s1 (fun p => mkProt (connected p) (tpaused p) (rpaused p) (parser_alive p) (pp_present p) true (closing p))
+    | (s1, PNeeds) => pr_set s1 (fun p => mkProt (connected p) (tpaused p) (rpaused p) (parser_alive p) (pp_present p) false (closing p))
+    | (s1, PComplete _) => pr_set s1 (fun p => mkProt (connected p) (tpaused p) (rpaused p) (parser_alive p) false false (closing p))
     end.
 
   (* BaseProtocol.resume_reading() *)
   Definition resume_reading (fuel : nat) (s : st) : st :=
-    let s1 := pr_set s (fun p => mkProt (connected p) (tpaused p) false (parser_alive p) (pp_present p) (has_more p)) in
+    let s1 := pr_set s (fun p => mkProt (connected p) (tpaused p) false (parser_alive p) (pp_present p) (has_more p) (closing p)) in
     let s2 := parser_feed fuel s1 [] in
     if negb (rpaused (pr s2)) && connected (pr s2)
-    then pr_set s2 (fun p => mkProt (connected p) false false (parser_alive p) (pp_present p) (has_more p))
+    then pr_set s2 (fun p => mkProt (connected p) false false (parser_alive p) (pp_present p) (has_more p) (closing p))
     else s2.
 
   (* ---- StreamReader, consumer side ------------------------------------------------------------------- *)
@@ -680,22 +684,34 @@ Section Sys.
       end
     end.
 
+  (* the loop runs until idle after every stimulus: first the reader task (if a producer completed its
+     waiter), then the connection_lost callback scheduled by transport.close(), then the task again *)
+  Definition settle (fuel : nat) (yo : sys * obs) : sys * obs :=
+    let '(y, o) := yo in
+    if closing (pr (core y)) then
+      let '(y1, o1) := poll fuel (mkSys (connection_lost fuel (core y)) (pend y)) in
+      (y1, match o with ONone => o1 | _ => o end)
+    else (y, o).
+
   Definition step (fuel : nat) (y : sys) (ev : event) : sys * obs :=
     let s := core y in
     match ev with
     | EvData d =>
       if deliverable s && pp_present (pr s) && parser_alive (pr s) && negb (isnil d)
-      then poll fuel (mkSys (parser_feed fuel s d) (pend y))
+      then settle fuel (poll fuel (mkSys (parser_feed fuel s d) (pend y)))
       else (y, OSkipped)
     | EvClose =>
-      if deliverable s then poll fuel (mkSys (connection_lost fuel s) (pend y)) else (y, OSkipped)
+      if deliverable s && pp_present (pr s) && parser_alive (pr s)
+      then poll fuel (mkSys (connection_lost fuel s) (pend y)) else (y, OSkipped)
     | EvOp o =>
       match pend y with
       | Some _ => (y, OSkipped)
       | None =>
         match op_start fuel s o with
-        | (s1, RBlocked) => (mkSys s1 (Some o), ORes RBlocked)
-        | (s1, r) => (mkSys s1 None, ORes r)
+        | (s1, RBlocked) => match settle fuel (mkSys s1 (Some o), ONone) with
+                            | (y1, ONone) => (y1, ORes RBlocked)
+                            | yo => yo end
+        | (s1, r) => settle fuel (mkSys s1 None, ORes r)
         end
       end
     end.
@@ -709,7 +725,7 @@ Section Sys.
   (* state right after the message head was parsed and the payload parser created *)
   Definition init (c : cfg) (t : ptype) (len : N) (enc : N) : sys :=
     let limit := c_limit c in
-    mkSys (mkSt c (mkProt true false false true true false)
+    mkSys (mkSt c (mkProt true false false true true false false)
                 (mkPp t len false CSize 0 [] false false false 0 false)
                 (mkDb (negb (enc =? 0)) enc (hnew (if enc =? 1 then 31 else 15)) 0 false)
                 (mkRd [] 0 (dg_low limit) (dg_high limit) (dg_lowc limit) (dg_highc limit) false None 0 0 None WNone [])
